@@ -1,145 +1,189 @@
 import NdnProofs.Lemmas.CodecParse
-/-! The scan loop of `TlvModel.parse` on a concatenation of recognised elements ("items"). -/
+/-! The scan loop of `TlvModel.parse` on a concatenation of recognised elements ("items").
+    An item is what ONE iteration of the loop consumes: one element of a plain or repeated field, or —
+    for a MapField — a key element immediately followed by its value element (`findMapValue`). -/
 namespace Ndn.Codec
 open Ndn
 
-structure Item where
-  idx : Nat
-  fld : Schema      -- the field found at `idx` (a plain field or `repeated e`)
-  v : Value         -- the value `parse_from` yields for this element
+/-- the value element of a map entry -/
+structure MapVal where
+  v : Value
   t : Nat
   body : Bytes
+
+structure Item where
+  idx : Nat
+  fld : Schema      -- the field found at `idx` (a plain field, `repeated e` or `map k v`)
+  v : Value         -- the value `parse_from` yields for this element (for a map entry: the key)
+  t : Nat
+  body : Bytes
+  mv : Option MapVal  -- `some` exactly for an entry of a MapField: the value element behind the key
 
 def isRep : Schema → Bool
   | .repeated _ => true
   | _ => false
 
-def applyItem (acc : List Value) (it : Item) : List Value :=
-  if isRep it.fld then
-    acc.set it.idx (.list (listOf acc[it.idx]? ++ [it.v]))
-  else acc.set it.idx it.v
+def isMapS : Schema → Bool
+  | .map _ _ => true
+  | _ => false
 
-def nextPos (it : Item) : Nat := if isRep it.fld then it.idx else it.idx + 1
+def applyItem (acc : List Value) (it : Item) : List Value :=
+  match it.mv with
+  | some m => acc.set it.idx (.map (mapSet (mapOf acc[it.idx]?) it.v m.v))
+  | none =>
+    if isRep it.fld then
+      acc.set it.idx (.list (listOf acc[it.idx]? ++ [it.v]))
+    else acc.set it.idx it.v
+
+def nextPos (it : Item) : Nat := if isRep it.fld || isMapS it.fld then it.idx else it.idx + 1
 
 def plainOrRep : Schema → Bool
-  | .map _ _ => false
   | .marker => false
   | _ => true
 
-/-- the schema an element of field `fld` is parsed with -/
+/-- the schema an element of field `fld` is parsed with (for a MapField: the key) -/
 def elemOf : Schema → Schema
   | .repeated e => e
+  | .map k _ => k
   | s => s
+
+/-- what follows the first element of an item: nothing, or (MapField) the value element -/
+def TailOK (it : Item) : Prop :=
+  match it.mv with
+  | none => isMapS it.fld = false
+  | some m => ∃ ks vs, it.fld = .map ks vs ∧ vs.typ = some m.t ∧ m.t < 2 ^ 64 ∧ m.body.length < 2 ^ 64 ∧
+      leafCheck vs m.body.length m.body = .ok () ∧
+      ∀ fuel R, m.body.length + 2 ≤ fuel → parseValue fuel vs m.body (tlv m.t m.body ++ R) = .ok m.v
 
 def ItemOK (fs : List Schema) (it : Item) : Prop :=
   fs[it.idx]? = some it.fld ∧ plainOrRep it.fld = true ∧ it.fld.typ = some it.t ∧ it.t < 2 ^ 64 ∧
   it.body.length < 2 ^ 64 ∧ leafCheck (elemOf it.fld) it.body.length it.body = .ok () ∧
-  ∀ fuel R, it.body.length + 2 ≤ fuel →
-    parseValue fuel (elemOf it.fld) it.body (tlv it.t it.body ++ R) = .ok it.v
+  (∀ fuel R, it.body.length + 2 ≤ fuel →
+    parseValue fuel (elemOf it.fld) it.body (tlv it.t it.body ++ R) = .ok it.v) ∧
+  TailOK it
 
 def ItemsOK (fs : List Schema) : Nat → List Item → Prop
   | _, [] => True
   | pos, it :: r => pos ≤ it.idx ∧ ItemOK fs it ∧ ItemsOK fs (nextPos it) r
 
+def encTail (it : Item) : Bytes :=
+  match it.mv with
+  | none => []
+  | some m => tlv m.t m.body
+
+/-- the bytes of one item -/
+def encItem (it : Item) : Bytes := tlv it.t it.body ++ encTail it
+
 def encItems : List Item → Bytes
   | [] => []
-  | it :: r => tlv it.t it.body ++ encItems r
+  | it :: r => encItem it ++ encItems r
 
 def endPos : Nat → List Item → Nat
   | p, [] => p
   | _, it :: r => endPos (nextPos it) r
 
+theorem encItem_len_ge (it : Item) : 2 ≤ (encItem it).length := by
+  have := tlNumSize_pos it.t; have := tlNumSize_pos it.body.length
+  simp [encItem, tlv_length]; omega
+
 theorem encItems_len_ge : ∀ (items : List Item), 2 * items.length ≤ (encItems items).length
   | [] => by simp [encItems]
   | it :: r => by
     have := encItems_len_ge r
-    have := tlNumSize_pos it.t; have := tlNumSize_pos it.body.length
-    simp [encItems, tlv_length]; omega
+    have := encItem_len_ge it
+    simp [encItems]; omega
 
-/-- the scan loop consumes a prefix of recognised elements and continues on what follows -/
-theorem loop_prefix (fs : List Schema) (ic : Bool) (hw : wfFs fs = true) (hn : nodupB (typs fs) = true)
-    (R : Bytes) :
-    ∀ (items : List Item) (fuel off pos : Nat) (acc : List Value),
-      ItemsOK fs pos items → (encItems items ++ R).length < fuel →
-      parseFields fuel fs ic (encItems items ++ R) off pos acc =
-        parseFields (fuel - items.length) fs ic R (off + (encItems items).length) (endPos pos items)
-          (items.foldl applyItem acc)
-  | [], fuel, off, pos, acc, _, _ => by simp [encItems, endPos]
-  | it :: r, fuel, off, pos, acc, hok, hf => by
-    obtain ⟨hpos, ⟨hfld, hpr, htyp, ht, hb, hleaf, hpv⟩, hrest⟩ := hok
-    cases fuel with
-    | zero => simp at hf
-    | succ f =>
-      have hassoc : encItems (it :: r) ++ R = tlv it.t it.body ++ (encItems r ++ R) := by
-        simp [encItems, List.append_assoc]
-      obtain ⟨p1, p2, s1, s2, s3⟩ := head_elem it.t it.body (encItems r ++ R) ht hb
-      have hlen : (encItems (it :: r) ++ R).length =
-          tlNumSize it.t + tlNumSize it.body.length + it.body.length + (encItems r ++ R).length := by
-        rw [hassoc]; simp [tlv_length]
-      have hne : (encItems (it :: r) ++ R).isEmpty = false := by
-        cases h : encItems (it :: r) ++ R with
-        | nil => have := congrArg List.length h; rw [hlen] at this; have := tlNumSize_pos it.t; simp at *; omega
-        | cons _ _ => rfl
-      have hfind := findField_ok fs pos it.idx it.fld it.t hn hfld htyp hpos
-      have hfuel : it.body.length + 2 ≤ f := by
-        have := tlNumSize_pos it.t; have := tlNumSize_pos it.body.length; omega
-      have hrf : (encItems r ++ R).length < f := by
-        have := tlNumSize_pos it.t; omega
-      have ih := loop_prefix fs ic hw hn R r f
-      have hoff : ∀ o : Nat, o + (tlNumSize it.t + tlNumSize it.body.length) + it.body.length + (encItems r).length
-          = o + (encItems (it :: r)).length := by
-        intro o; simp [encItems, tlv_length]; omega
-      have hsub : f + 1 - (it :: r).length = f - r.length := by simp
-      conv => lhs; unfold parseFields
-      simp only [hne, Bool.false_eq_true, if_false]
-      rw [hassoc]
-      simp only [p1, p2, bind, Except.bind, s1, s2, s3, hfind, skipMarkers_id fs acc _ _ _ hw, hfld]
-      cases hk : it.fld with
-      | map k v => simp [hk, plainOrRep] at hpr
-      | marker => simp [hk, plainOrRep] at hpr
-      | repeated e =>
-        simp only [hk, elemOf] at hleaf hpv
-        simp only [hleaf, hpv f _ hfuel]
-        have hnp : nextPos it = it.idx := by simp [nextPos, hk, isRep]
-        rw [ih _ _ _ (hnp ▸ hrest) hrf, hoff, hsub]
-        simp [List.foldl, applyItem, hk, isRep, endPos, hnp]
-      | uint t fl =>
-        simp only [hk, elemOf] at hleaf hpv
-        simp only [hleaf, hpv f _ hfuel]
-        have hnp : nextPos it = it.idx + 1 := by simp [nextPos, hk, isRep]
-        rw [ih _ _ _ (hnp ▸ hrest) hrf, hoff, hsub]
-        simp [List.foldl, applyItem, hk, isRep, endPos, hnp]
-      | bool t =>
-        simp only [hk, elemOf] at hleaf hpv
-        simp only [hleaf, hpv f _ hfuel]
-        have hnp : nextPos it = it.idx + 1 := by simp [nextPos, hk, isRep]
-        rw [ih _ _ _ (hnp ▸ hrest) hrf, hoff, hsub]
-        simp [List.foldl, applyItem, hk, isRep, endPos, hnp]
-      | bytes t s =>
-        simp only [hk, elemOf] at hleaf hpv
-        simp only [hleaf, hpv f _ hfuel]
-        have hnp : nextPos it = it.idx + 1 := by simp [nextPos, hk, isRep]
-        rw [ih _ _ _ (hnp ▸ hrest) hrf, hoff, hsub]
-        simp [List.foldl, applyItem, hk, isRep, endPos, hnp]
-      | name t =>
-        simp only [hk, elemOf] at hleaf hpv
-        simp only [hleaf, hpv f _ hfuel]
-        have hnp : nextPos it = it.idx + 1 := by simp [nextPos, hk, isRep]
-        rw [ih _ _ _ (hnp ▸ hrest) hrf, hoff, hsub]
-        simp [List.foldl, applyItem, hk, isRep, endPos, hnp]
-      | model t fs' ic' =>
-        simp only [hk, elemOf] at hleaf hpv
-        simp only [hleaf, hpv f _ hfuel]
-        have hnp : nextPos it = it.idx + 1 := by simp [nextPos, hk, isRep]
-        rw [ih _ _ _ (hnp ▸ hrest) hrf, hoff, hsub]
-        simp [List.foldl, applyItem, hk, isRep, endPos, hnp]
+/-- ONE iteration of the scan loop consumes one item -/
+theorem loop_step (fs : List Schema) (ic : Bool) (hn : nodupB (typs fs) = true) (it : Item) (R : Bytes)
+    (f off pos : Nat) (acc : List Value) (hpos : pos ≤ it.idx) (hok : ItemOK fs it)
+    (hf : (encItem it ++ R).length < f + 1) :
+    parseFields (f + 1) fs ic (encItem it ++ R) off pos acc =
+      parseFields f fs ic R (off + (encItem it).length) (nextPos it)
+        (applyItem (skipMarkers fs acc pos it.idx off) it) := by
+  obtain ⟨hfld, hpr, htyp, ht, hb, hleaf, hpv, htail⟩ := hok
+  have hassoc : encItem it ++ R = tlv it.t it.body ++ (encTail it ++ R) := by
+    simp [encItem, List.append_assoc]
+  obtain ⟨p1, p2, s1, s2, s3⟩ := head_elem it.t it.body (encTail it ++ R) ht hb
+  have hlen : (encItem it ++ R).length =
+      tlNumSize it.t + tlNumSize it.body.length + it.body.length + (encTail it ++ R).length := by
+    rw [hassoc]; simp [tlv_length]
+  have hne : (encItem it ++ R).isEmpty = false := by
+    cases h : encItem it ++ R with
+    | nil => have := congrArg List.length h; rw [hlen] at this; have := tlNumSize_pos it.t; simp at *; omega
+    | cons _ _ => rfl
+  have hfind := findField_ok fs pos it.idx it.fld it.t hn hfld htyp hpos
+  have hfuel : it.body.length + 2 ≤ f := by
+    have := tlNumSize_pos it.t; have := tlNumSize_pos it.body.length; omega
+  conv => lhs; unfold parseFields
+  simp only [hne, Bool.false_eq_true, if_false]
+  rw [hassoc]
+  simp only [p1, p2, bind, Except.bind, s1, s3, hfind, hfld]
+  cases hmv : it.mv with
+  | none =>
+    have hnm : isMapS it.fld = false := by simpa [TailOK, hmv] using htail
+    have htl : encTail it = [] := by simp [encTail, hmv]
+    have hel : (encItem it).length = tlNumSize it.t + tlNumSize it.body.length + it.body.length := by
+      simp [encItem, htl, tlv_length]
+    rw [htl, List.nil_append, hel]
+    cases hk : it.fld with
+    | map k v => simp [hk, isMapS] at hnm
+    | marker => simp [hk, plainOrRep] at hpr
+    | repeated e =>
+      simp only [hk, elemOf] at hleaf hpv
+      simp only [hleaf, hpv f _ hfuel]
+      simp [applyItem, hmv, hk, isRep, isMapS, nextPos, Nat.add_assoc]
+    | uint t fl =>
+      simp only [hk, elemOf] at hleaf hpv
+      simp only [hleaf, hpv f _ hfuel]
+      simp [applyItem, hmv, hk, isRep, isMapS, nextPos, Nat.add_assoc]
+    | bool t =>
+      simp only [hk, elemOf] at hleaf hpv
+      simp only [hleaf, hpv f _ hfuel]
+      simp [applyItem, hmv, hk, isRep, isMapS, nextPos, Nat.add_assoc]
+    | bytes t s =>
+      simp only [hk, elemOf] at hleaf hpv
+      simp only [hleaf, hpv f _ hfuel]
+      simp [applyItem, hmv, hk, isRep, isMapS, nextPos, Nat.add_assoc]
+    | name t =>
+      simp only [hk, elemOf] at hleaf hpv
+      simp only [hleaf, hpv f _ hfuel]
+      simp [applyItem, hmv, hk, isRep, isMapS, nextPos, Nat.add_assoc]
+    | model t fs' ic' =>
+      simp only [hk, elemOf] at hleaf hpv
+      simp only [hleaf, hpv f _ hfuel]
+      simp [applyItem, hmv, hk, isRep, isMapS, nextPos, Nat.add_assoc]
+  | some m =>
+    obtain ⟨ks, vs, hk, hvt, hmt, hmb, hleaf2, hpv2⟩ :
+        ∃ ks vs, it.fld = .map ks vs ∧ vs.typ = some m.t ∧ m.t < 2 ^ 64 ∧ m.body.length < 2 ^ 64 ∧
+          leafCheck vs m.body.length m.body = .ok () ∧
+          ∀ fuel R, m.body.length + 2 ≤ fuel → parseValue fuel vs m.body (tlv m.t m.body ++ R) = .ok m.v := by
+      simpa [TailOK, hmv] using htail
+    have htl : encTail it = tlv m.t m.body := by simp [encTail, hmv]
+    have hel : (encItem it).length = tlNumSize it.t + tlNumSize it.body.length + it.body.length +
+        (tlNumSize m.t + tlNumSize m.body.length + m.body.length) := by
+      simp [encItem, htl, tlv_length]
+    obtain ⟨q1, q2, r1, _, r3⟩ := head_elem m.t m.body R hmt hmb
+    rw [htl, hel]
+    simp only [hk, elemOf] at hleaf hpv
+    simp only [hk, hleaf, hpv f _ hfuel]
+    cases f with
+    | zero => omega
+    | succ f' =>
+      have hfuel2 : m.body.length + 2 ≤ f' + 1 := by
+        have := tlNumSize_pos it.t; have := tlNumSize_pos it.body.length
+        have := tlNumSize_pos m.t; have := tlNumSize_pos m.body.length
+        have := List.length_append (as := encItem it) (bs := R)
+        omega
+      simp only [findMapValue, q1, q2, bind, Except.bind, hvt, if_true, r1, r3, pure, Except.pure, hleaf2,
+        hpv2 (f' + 1) _ hfuel2]
+      simp [applyItem, hmv, hk, isRep, isMapS, nextPos, Nat.add_assoc]
 
 /-- state of the accumulator after the scan loop processed `items` from position `pos`, offset `off`:
     OffsetMarker fields skipped over on the way to an element record that element's offset -/
 def runItems (fs : List Schema) : Nat → Nat → List Value → List Item → List Value
   | _, _, acc, [] => acc
   | pos, off, acc, it :: r =>
-    runItems fs (nextPos it) (off + (tlv it.t it.body).length)
+    runItems fs (nextPos it) (off + (encItem it).length)
       (applyItem (skipMarkers fs acc pos it.idx off) it) r
 
 /-- marker-aware version of `loop_prefix` (no assumption that the schema is marker-free) -/
@@ -152,73 +196,37 @@ theorem loop_prefix_m (fs : List Schema) (ic : Bool) (hn : nodupB (typs fs) = tr
           (runItems fs pos off acc items)
   | [], fuel, off, pos, acc, _, _ => by simp [encItems, endPos, runItems]
   | it :: r, fuel, off, pos, acc, hok, hf => by
-    obtain ⟨hpos, ⟨hfld, hpr, htyp, ht, hb, hleaf, hpv⟩, hrest⟩ := hok
+    obtain ⟨hpos, hit, hrest⟩ := hok
     cases fuel with
     | zero => simp at hf
     | succ f =>
-      have hassoc : encItems (it :: r) ++ R = tlv it.t it.body ++ (encItems r ++ R) := by
+      have hassoc : encItems (it :: r) ++ R = encItem it ++ (encItems r ++ R) := by
         simp [encItems, List.append_assoc]
-      obtain ⟨p1, p2, s1, s2, s3⟩ := head_elem it.t it.body (encItems r ++ R) ht hb
-      have hlen : (encItems (it :: r) ++ R).length =
-          tlNumSize it.t + tlNumSize it.body.length + it.body.length + (encItems r ++ R).length := by
-        rw [hassoc]; simp [tlv_length]
-      have hne : (encItems (it :: r) ++ R).isEmpty = false := by
-        cases h : encItems (it :: r) ++ R with
-        | nil => have := congrArg List.length h; rw [hlen] at this; have := tlNumSize_pos it.t; simp at *; omega
-        | cons _ _ => rfl
-      have hfind := findField_ok fs pos it.idx it.fld it.t hn hfld htyp hpos
-      have hfuel : it.body.length + 2 ≤ f := by
-        have := tlNumSize_pos it.t; have := tlNumSize_pos it.body.length; omega
+      have h2 := encItem_len_ge it
       have hrf : (encItems r ++ R).length < f := by
-        have := tlNumSize_pos it.t; omega
-      have ih := loop_prefix_m fs ic hn R r f
-      have hoff : ∀ o : Nat, o + (tlNumSize it.t + tlNumSize it.body.length) + it.body.length + (encItems r).length
-          = o + (encItems (it :: r)).length := by
-        intro o; simp [encItems, tlv_length]; omega
+        rw [hassoc, List.length_append] at hf; omega
       have hsub : f + 1 - (it :: r).length = f - r.length := by simp
-      conv => lhs; unfold parseFields
-      simp only [hne, Bool.false_eq_true, if_false]
-      rw [hassoc]
-      simp only [p1, p2, bind, Except.bind, s1, s2, s3, hfind, hfld]
-      cases hk : it.fld with
-      | map k v => simp [hk, plainOrRep] at hpr
-      | marker => simp [hk, plainOrRep] at hpr
-      | repeated e =>
-        simp only [hk, elemOf] at hleaf hpv
-        simp only [hleaf, hpv f _ hfuel]
-        have hnp : nextPos it = it.idx := by simp [nextPos, hk, isRep]
-        rw [ih _ _ _ (hnp ▸ hrest) hrf, hoff, hsub]
-        simp [runItems, applyItem, hk, isRep, endPos, hnp, encItems, tlv_length, Nat.add_assoc]
-      | uint t fl =>
-        simp only [hk, elemOf] at hleaf hpv
-        simp only [hleaf, hpv f _ hfuel]
-        have hnp : nextPos it = it.idx + 1 := by simp [nextPos, hk, isRep]
-        rw [ih _ _ _ (hnp ▸ hrest) hrf, hoff, hsub]
-        simp [runItems, applyItem, hk, isRep, endPos, hnp, encItems, tlv_length, Nat.add_assoc]
-      | bool t =>
-        simp only [hk, elemOf] at hleaf hpv
-        simp only [hleaf, hpv f _ hfuel]
-        have hnp : nextPos it = it.idx + 1 := by simp [nextPos, hk, isRep]
-        rw [ih _ _ _ (hnp ▸ hrest) hrf, hoff, hsub]
-        simp [runItems, applyItem, hk, isRep, endPos, hnp, encItems, tlv_length, Nat.add_assoc]
-      | bytes t s =>
-        simp only [hk, elemOf] at hleaf hpv
-        simp only [hleaf, hpv f _ hfuel]
-        have hnp : nextPos it = it.idx + 1 := by simp [nextPos, hk, isRep]
-        rw [ih _ _ _ (hnp ▸ hrest) hrf, hoff, hsub]
-        simp [runItems, applyItem, hk, isRep, endPos, hnp, encItems, tlv_length, Nat.add_assoc]
-      | name t =>
-        simp only [hk, elemOf] at hleaf hpv
-        simp only [hleaf, hpv f _ hfuel]
-        have hnp : nextPos it = it.idx + 1 := by simp [nextPos, hk, isRep]
-        rw [ih _ _ _ (hnp ▸ hrest) hrf, hoff, hsub]
-        simp [runItems, applyItem, hk, isRep, endPos, hnp, encItems, tlv_length, Nat.add_assoc]
-      | model t fs' ic' =>
-        simp only [hk, elemOf] at hleaf hpv
-        simp only [hleaf, hpv f _ hfuel]
-        have hnp : nextPos it = it.idx + 1 := by simp [nextPos, hk, isRep]
-        rw [ih _ _ _ (hnp ▸ hrest) hrf, hoff, hsub]
-        simp [runItems, applyItem, hk, isRep, endPos, hnp, encItems, tlv_length, Nat.add_assoc]
+      rw [hassoc, loop_step fs ic hn it _ f off pos acc hpos hit (by rw [← hassoc]; exact hf),
+        loop_prefix_m fs ic hn R r f _ _ _ hrest hrf, hsub]
+      simp [runItems, endPos, encItems, Nat.add_assoc]
+
+/-- without marker fields nothing is recorded on the way: the accumulator is the plain fold -/
+theorem runItems_wf (fs : List Schema) (hw : wfFs fs = true) :
+    ∀ (items : List Item) (pos off : Nat) (acc : List Value),
+      runItems fs pos off acc items = items.foldl applyItem acc
+  | [], _, _, _ => rfl
+  | it :: r, pos, off, acc => by
+    simp only [runItems, List.foldl, skipMarkers_id fs acc _ _ _ hw]
+    exact runItems_wf fs hw r _ _ _
+
+/-- the scan loop consumes a prefix of recognised elements and continues on what follows -/
+theorem loop_prefix (fs : List Schema) (ic : Bool) (hw : wfFs fs = true) (hn : nodupB (typs fs) = true)
+    (R : Bytes) (items : List Item) (fuel off pos : Nat) (acc : List Value)
+    (hok : ItemsOK fs pos items) (hf : (encItems items ++ R).length < fuel) :
+    parseFields fuel fs ic (encItems items ++ R) off pos acc =
+      parseFields (fuel - items.length) fs ic R (off + (encItems items).length) (endPos pos items)
+        (items.foldl applyItem acc) := by
+  rw [loop_prefix_m fs ic hn R items fuel off pos acc hok hf, runItems_wf fs hw]
 
 theorem loop_items (fs : List Schema) (ic : Bool) (hw : wfFs fs = true) (hn : nodupB (typs fs) = true)
     (items : List Item) (fuel off pos : Nat) (acc : List Value)
@@ -289,5 +297,124 @@ theorem ItemsOK_split (fs : List Schema) : ∀ (l1 l2 : List Item) (p : Nat),
   | it :: r, l2, p, ⟨h1, h2, h3⟩ => by
     obtain ⟨a, b⟩ := ItemsOK_split fs r l2 (nextPos it) h3
     exact ⟨⟨h1, h2, a⟩, b⟩
+
+end Ndn.Codec
+
+/-! ### a MapField entry with an unrecognised element between the key and its value -/
+namespace Ndn.Codec
+open Ndn
+
+theorem findMapValue_hit (vt : Option Nat) (ic : Bool) (t : Nat) (body R : Bytes) (f off : Nat)
+    (hvt : vt = some t) (ht : t < 2 ^ 64) (hb : body.length < 2 ^ 64) :
+    findMapValue (f + 1) vt ic (tlv t body ++ R) off =
+      .ok (body.length, body, tlv t body ++ R, R, off + (tlNumSize t + tlNumSize body.length) + body.length) := by
+  obtain ⟨q1, q2, r1, _, r3⟩ := head_elem t body R ht hb
+  simp only [findMapValue, q1, q2, bind, Except.bind, hvt, if_true, r1, r3, pure, Except.pure]
+
+/-- between a key and its value every element that does not carry the value Type is skipped when it is
+    non-critical (or critical fields are ignored) -/
+theorem findMapValue_skip (vt : Option Nat) (ic : Bool) (t : Nat) (x R : Bytes) (f off : Nat)
+    (ht : t < 2 ^ 64) (hx : x.length < 2 ^ 64) (hne : some t ≠ vt) (hcrit : t % 2 = 0 ∨ ic = true) :
+    findMapValue (f + 1) vt ic (tlv t x ++ R) off =
+      findMapValue f vt ic R (off + (tlNumSize t + tlNumSize x.length) + x.length) := by
+  obtain ⟨q1, q2, _, _, r3⟩ := head_elem t x R ht hx
+  have : ¬ (t % 2 = 1 ∧ ¬ ic = true) := by
+    rcases hcrit with h | h
+    · omega
+    · simp [h]
+  simp only [findMapValue, q1, q2, bind, Except.bind, hne, if_false, this, r3]
+
+/-- … and rejected with DecodeError when it is critical -/
+theorem findMapValue_reject (vt : Option Nat) (t : Nat) (x R : Bytes) (f off : Nat)
+    (ht : t < 2 ^ 64) (hx : x.length < 2 ^ 64) (hne : some t ≠ vt) (hodd : t % 2 = 1) :
+    findMapValue (f + 1) vt false (tlv t x ++ R) off = .error .decodeError := by
+  obtain ⟨q1, q2, _, _, _⟩ := head_elem t x R ht hx
+  simp [findMapValue, q1, q2, bind, Except.bind, hne, hodd]
+
+/-- what the scan loop does with the result of the search for the value element -/
+def afterKey (fs : List Schema) (ic : Bool) (f : Nat) (idx : Nat) (key : Value) (vs : Schema) (acc1 : List Value) :
+    Except PyErr (Nat × Bytes × Bytes × Bytes × Nat) → Except PyErr (List Value)
+  | .error e => .error e
+  | .ok (len2, body2, elem2, rest3, off3) => do
+    leafCheck vs len2 body2
+    let v ← parseValue f vs body2 elem2
+    parseFields f fs ic rest3 off3 idx (acc1.set idx (.map (mapSet (mapOf acc1[idx]?) key v)))
+
+/-- one iteration of the scan loop on the key element of a map entry, whatever follows it -/
+theorem loop_step_key (fs : List Schema) (ic : Bool) (hn : nodupB (typs fs) = true) (it : Item)
+    (ks vs : Schema) (hk : it.fld = .map ks vs) (G : Bytes)
+    (f off pos : Nat) (acc : List Value) (hpos : pos ≤ it.idx) (hok : ItemOK fs it)
+    (hf : (tlv it.t it.body).length < f + 1) :
+    parseFields (f + 1) fs ic (tlv it.t it.body ++ G) off pos acc =
+      afterKey fs ic f it.idx it.v vs (skipMarkers fs acc pos it.idx off)
+        (findMapValue f vs.typ ic G (off + (tlNumSize it.t + tlNumSize it.body.length) + it.body.length)) := by
+  obtain ⟨hfld, hpr, htyp, ht, hb, hleaf, hpv, _⟩ := hok
+  obtain ⟨p1, p2, s1, _, s3⟩ := head_elem it.t it.body G ht hb
+  have hne : (tlv it.t it.body ++ G).isEmpty = false := by
+    cases h : tlv it.t it.body ++ G with
+    | nil => simp at h; exact absurd h.1 (tlv_ne_nil _ _)
+    | cons _ _ => rfl
+  have hfind := findField_ok fs pos it.idx it.fld it.t hn hfld htyp hpos
+  have hfuel : it.body.length + 2 ≤ f := by
+    have := tlNumSize_pos it.t; have := tlNumSize_pos it.body.length
+    rw [tlv_length] at hf; omega
+  conv => lhs; unfold parseFields
+  simp only [hne, Bool.false_eq_true, if_false]
+  simp only [p1, p2, bind, Except.bind, s1, s3, hfind, hfld]
+  simp only [hk, elemOf] at hleaf hpv
+  simp only [hk, hleaf, hpv f _ hfuel]
+  cases findMapValue f vs.typ ic G (off + (tlNumSize it.t + tlNumSize it.body.length) + it.body.length) with
+  | error e => rfl
+  | ok r => rfl
+
+/-- a map entry with a skippable element between key and value is consumed like the entry itself -/
+theorem loop_step_gap (fs : List Schema) (ic : Bool) (hn : nodupB (typs fs) = true) (it : Item) (m : MapVal)
+    (hmv : it.mv = some m) (t : Nat) (x R : Bytes) (f off pos : Nat) (acc : List Value)
+    (hpos : pos ≤ it.idx) (hok : ItemOK fs it)
+    (ht : t < 2 ^ 64) (hx : x.length < 2 ^ 64) (hne : t ≠ m.t) (hcrit : t % 2 = 0 ∨ ic = true)
+    (hf : (tlv it.t it.body ++ (tlv t x ++ (tlv m.t m.body ++ R))).length < f + 1) :
+    parseFields (f + 1) fs ic (tlv it.t it.body ++ (tlv t x ++ (tlv m.t m.body ++ R))) off pos acc =
+      parseFields f fs ic R (off + (encItem it).length + (tlv t x).length) (nextPos it)
+        (applyItem (skipMarkers fs acc pos it.idx off) it) := by
+  obtain ⟨ks, vs, hk, hvt, hmt, hmb, hleaf2, hpv2⟩ :
+      ∃ ks vs, it.fld = .map ks vs ∧ vs.typ = some m.t ∧ m.t < 2 ^ 64 ∧ m.body.length < 2 ^ 64 ∧
+        leafCheck vs m.body.length m.body = .ok () ∧
+        ∀ fuel R, m.body.length + 2 ≤ fuel → parseValue fuel vs m.body (tlv m.t m.body ++ R) = .ok m.v := by
+    simpa [TailOK, hmv] using hok.2.2.2.2.2.2.2
+  have h1 := tlNumSize_pos it.t; have h2 := tlNumSize_pos it.body.length
+  have h3 := tlNumSize_pos t; have h4 := tlNumSize_pos x.length
+  have h5 := tlNumSize_pos m.t; have h6 := tlNumSize_pos m.body.length
+  simp only [List.length_append, tlv_length] at hf
+  rw [loop_step_key fs ic hn it ks vs hk _ f off pos acc hpos hok (by rw [tlv_length]; omega)]
+  obtain ⟨f1, rfl⟩ : ∃ f1, f = f1 + 1 := ⟨f - 1, by omega⟩
+  rw [findMapValue_skip vs.typ ic t x _ f1 _ ht hx (by rw [hvt]; simpa using hne) hcrit]
+  obtain ⟨f2, rfl⟩ : ∃ f2, f1 = f2 + 1 := ⟨f1 - 1, by omega⟩
+  rw [findMapValue_hit vs.typ ic m.t m.body R f2 _ hvt hmt hmb]
+  simp only [afterKey, hleaf2, hpv2 (f2 + 1 + 1) _ (by omega), bind, Except.bind]
+  have hel : (encItem it).length = tlNumSize it.t + tlNumSize it.body.length + it.body.length +
+      (tlNumSize m.t + tlNumSize m.body.length + m.body.length) := by
+    simp [encItem, encTail, hmv, tlv_length]
+  rw [hel]
+  simp [applyItem, hmv, hk, isRep, isMapS, nextPos, tlv_length, Nat.add_assoc, Nat.add_left_comm, Nat.add_comm]
+
+/-- a critical element between key and value: DecodeError -/
+theorem loop_step_gap_reject (fs : List Schema) (hn : nodupB (typs fs) = true) (it : Item) (m : MapVal)
+    (hmv : it.mv = some m) (t : Nat) (x R : Bytes) (f off pos : Nat) (acc : List Value)
+    (hpos : pos ≤ it.idx) (hok : ItemOK fs it)
+    (ht : t < 2 ^ 64) (hx : x.length < 2 ^ 64) (hne : t ≠ m.t) (hodd : t % 2 = 1)
+    (hf : (tlv it.t it.body ++ (tlv t x ++ R)).length < f + 1) :
+    parseFields (f + 1) fs false (tlv it.t it.body ++ (tlv t x ++ R)) off pos acc = .error .decodeError := by
+  obtain ⟨ks, vs, hk, hvt, _⟩ :
+      ∃ ks vs, it.fld = .map ks vs ∧ vs.typ = some m.t ∧ m.t < 2 ^ 64 ∧ m.body.length < 2 ^ 64 ∧
+        leafCheck vs m.body.length m.body = .ok () ∧
+        ∀ fuel R, m.body.length + 2 ≤ fuel → parseValue fuel vs m.body (tlv m.t m.body ++ R) = .ok m.v := by
+    simpa [TailOK, hmv] using hok.2.2.2.2.2.2.2
+  have h1 := tlNumSize_pos it.t; have h2 := tlNumSize_pos it.body.length
+  have h3 := tlNumSize_pos t; have h4 := tlNumSize_pos x.length
+  simp only [List.length_append, tlv_length] at hf
+  rw [loop_step_key fs false hn it ks vs hk _ f off pos acc hpos hok (by rw [tlv_length]; omega)]
+  obtain ⟨f1, rfl⟩ : ∃ f1, f = f1 + 1 := ⟨f - 1, by omega⟩
+  rw [findMapValue_reject vs.typ t x _ f1 _ ht hx (by rw [hvt]; simpa using hne) hodd]
+  rfl
 
 end Ndn.Codec
